@@ -13,3 +13,5 @@ bridge.build_cli()
 PY
 python3-vt -m compileall -q av
 python3-vt -m av.selftest
+# pre-build the nightly artefacts used by the MIR kernel check of C06
+python3-vt -c "from av import mirkernel; print('mir kernel:', mirkernel.check_kernel().get('verdict'))"
